@@ -11,7 +11,9 @@
 (*  Idempotent.Rerun       a run without injected fault that follows a run *)
 (*                         without injected fault leaves the store content *)
 (*                         byte-identical (run n = run 1 for n = 2, 3; also*)
-(*                         for the fixpoint after "aborted run + rerun")   *)
+(*                         for the fixpoint after "aborted run + rerun").  *)
+(*                         Dx = digest of all objects but the packages, Dp *)
+(*                         = digest of the package objects                 *)
 (*  Idempotent.AbortRerun  aborted run(s) followed by a completed run end  *)
 (*                         in the abstract state in which one undisturbed  *)
 (*                         run from the same contents ends (ref, observed  *)
